@@ -17,8 +17,10 @@ package main
 import (
 	"fmt"
 	"os"
+	"runtime/pprof"
 	"sort"
 	"strings"
+	"time"
 
 	"github.com/gofiber/fiber/v3"
 	"github.com/valyala/fasthttp"
@@ -124,7 +126,7 @@ func finishPat(toks []tok) *pat {
 }
 
 // enumPatterns lists every delimited pattern of 1..maxTok tokens; the first token is "/"+lit.
-func enumPatterns(maxTok int) []*pat {
+func enumPatterns(maxTok int, lits []string) []*pat {
 	var out []*pat
 	var rec func(cur []tok)
 	rec = func(cur []tok) {
@@ -407,10 +409,36 @@ type claim struct {
 	altOK   bool
 }
 
+const (
+	vAsIs = iota
+	vUpper
+	vUpperLit
+	vSlashAdd
+	vSlashRem
+	vEncVals
+	vEncAll
+	vCombo
+	nVariants
+)
+
+var variantNames = [nVariants]string{"as-is", "upper", "upper-literals", "slash-added", "slash-removed", "enc-values", "enc-all", "upper+enc+slash"}
+
 type variant struct {
+	id   int
 	name string
 	path string
 	cl   claim
+}
+
+// filling is one type-valid assignment with everything that does not depend on the configuration.
+type filling struct {
+	vals, uv, ev []string // values, upper-cased values, fully percent-encoded values
+	P            string   // the filled path
+	adm          [2]bool  // side conditions hold (exact / case-folded reading)
+	admUV        bool     // upper-cased values meet them (exact reading)
+	admEV        [2]bool  // encoded values meet them
+	onlyValsUp   bool     // upper-casing the path changes values only
+	vars         []variant
 }
 
 func (p *pat) lastIsGreedy() bool {
@@ -425,117 +453,121 @@ func (p *pat) mustNotOrUnspec(path string, c rcfg) claim {
 	return claim{kind: cMustNot}
 }
 
-// variants returns the judged spellings of one admissible filling under configuration c.
-func (p *pat) variants(vals []string, c rcfg, buf []variant) []variant {
-	out := buf[:0]
-	P := p.fill(vals, nil)
+// newFilling prepares the spellings of one type-valid assignment.
+func (p *pat) newFilling(vals []string) *filling {
+	f := &filling{vals: vals, uv: mapAll(vals, upperASCII), ev: mapAll(vals, encAll)}
+	f.P = p.fill(vals, nil)
+	P := f.P
+	f.adm = [2]bool{p.admissible(vals, false), p.admissible(vals, true)}
+	f.admUV = p.admissible(f.uv, false)
+	f.admEV = [2]bool{p.admissible(f.ev, false), p.admissible(f.ev, true)}
+	UL := p.fill(vals, upperASCII)
+	f.onlyValsUp = UL == P
 	hasVal := false
 	for _, v := range vals {
 		hasVal = hasVal || v != ""
 	}
-	// as is
-	out = append(out, variant{"as-is", P, claim{kind: cMust, vals: vals}})
-
-	// upper-cased (whole path)
+	add := func(id int, path string) {
+		f.vars = append(f.vars, variant{id: id, name: variantNames[id], path: path})
+	}
+	add(vAsIs, P)
 	if U := upperASCII(P); U != P {
-		uv := mapAll(vals, upperASCII)
-		var cl claim
+		add(vUpper, U)
+	}
+	if UL != P {
+		add(vUpperLit, UL)
+	}
+	add(vSlashAdd, P+"/")
+	if len(P) > 1 && strings.HasSuffix(P, "/") {
+		add(vSlashRem, P[:len(P)-1])
+	}
+	if hasVal {
+		add(vEncVals, p.fill(f.ev, nil))
+	}
+	if p.litAlph {
+		add(vEncAll, p.fill(f.ev, encLetters))
+	}
+	if !strings.HasSuffix(P, "/") {
+		add(vCombo, p.fill(mapAll(f.uv, encAll), func(s string) string { return encLetters(upperASCII(s)) })+"/")
+	}
+	return f
+}
+
+// claimFor judges one spelling of an admissible filling under configuration c, strictly from
+// the statement: the first sentence for the filled path itself, the configuration sentence for
+// the variants; everything else is unspecified.
+func (p *pat) claimFor(f *filling, v *variant, c rcfg) claim {
+	vals := f.vals
+	fold := 0
+	if !c.CS {
+		fold = 1
+	}
+	switch v.id {
+	case vAsIs:
+		return claim{kind: cMust, vals: vals}
+	case vUpper: // whole path upper-cased
 		switch {
 		case !c.CS:
-			cl = claim{kind: cMust, vals: uv}
-		case !p.litAlph || p.fill(vals, upperASCII) == p.fill(vals, nil):
-			// only values changed: it is simply another filling
-			if p.admissible(uv, false) {
-				cl = claim{kind: cMust, vals: uv}
+			return claim{kind: cMust, vals: f.uv}
+		case f.onlyValsUp: // only values changed: simply another filling
+			if f.admUV {
+				return claim{kind: cMust, vals: f.uv}
 			}
-		default:
-			cl = p.mustNotOrUnspec(U, c)
+			return claim{}
 		}
-		out = append(out, variant{"upper", U, cl})
-	}
-	// upper-cased literals only: values must come back un-folded
-	if UL := p.fill(vals, upperASCII); UL != P {
-		var cl claim
+		return p.mustNotOrUnspec(v.path, c)
+	case vUpperLit: // literals upper-cased: the values must come back un-folded
 		if !c.CS {
-			cl = claim{kind: cMust, vals: vals}
-		} else {
-			cl = p.mustNotOrUnspec(UL, c)
+			return claim{kind: cMust, vals: vals}
 		}
-		out = append(out, variant{"upper-literals", UL, cl})
-	}
-	// trailing slash added ("a trailing slash": judged only when P has none yet)
-	{
-		S := P + "/"
-		var cl claim
+		return p.mustNotOrUnspec(v.path, c)
+	case vSlashAdd: // "a trailing slash": judged only when the filled path has none yet
 		switch {
-		case strings.HasSuffix(P, "/"):
-			cl = claim{kind: cUnspec}
+		case strings.HasSuffix(f.P, "/"):
+			return claim{}
 		case !c.Strict:
-			cl = claim{kind: cMust, vals: vals}
+			cl := claim{kind: cMust, vals: vals}
 			if p.lastIsGreedy() {
 				// "/a/x/" is the filling x of "/a/*" plus an ignored slash, or the filling "x/": either is accepted
 				cl.altOK, cl.altLast = true, vals[len(vals)-1]+"/"
 			}
-		default:
-			cl = p.mustNotOrUnspec(S, c)
+			return cl
 		}
-		out = append(out, variant{"slash-added", S, cl})
-	}
-	// trailing slash removed
-	if len(P) > 1 && strings.HasSuffix(P, "/") {
-		R := P[:len(P)-1]
-		var cl claim
+		return p.mustNotOrUnspec(v.path, c)
+	case vSlashRem:
 		switch {
 		case !c.Strict:
-			cl = claim{kind: cMust, vals: vals}
 			if len(vals) > 0 && p.toks[len(p.toks)-1].isParam() && strings.HasSuffix(vals[len(vals)-1], "/") {
-				cl = claim{kind: cUnspec}
+				return claim{}
 			}
+			return claim{kind: cMust, vals: vals}
 		case p.toks[len(p.toks)-1].kind == kLit:
-			cl = p.mustNotOrUnspec(R, c)
-		default:
-			cl = claim{kind: cUnspec}
+			return p.mustNotOrUnspec(v.path, c)
 		}
-		out = append(out, variant{"slash-removed", R, cl})
-	}
-	// every byte of every value percent-encoded
-	if hasVal {
-		ev := mapAll(vals, encAll)
-		E := p.fill(ev, nil)
-		var cl claim
+		return claim{}
+	case vEncVals: // every byte of every value percent-encoded
 		if c.Unesc {
-			cl = claim{kind: cMust, vals: vals}
-		} else if p.admissible(ev, !c.CS) {
-			cl = claim{kind: cMust, vals: ev} // no decoding: the raw text is the value
+			return claim{kind: cMust, vals: vals}
 		}
-		out = append(out, variant{"enc-values", E, cl})
-	}
-	// letters of the literals (and the values) percent-encoded
-	if p.litAlph {
-		ev := mapAll(vals, encAll)
-		E := p.fill(ev, encLetters)
-		var cl claim
+		if f.admEV[fold] {
+			return claim{kind: cMust, vals: f.ev} // no decoding: the raw text is the value
+		}
+		return claim{}
+	case vEncAll: // letters of the literals encoded too
 		if c.Unesc {
-			cl = claim{kind: cMust, vals: vals}
-		} else {
-			cl = p.mustNotOrUnspec(E, c)
+			return claim{kind: cMust, vals: vals}
 		}
-		out = append(out, variant{"enc-all", E, cl})
-	}
-	// all three at once: judged only where all three equivalences are promised
-	if !strings.HasSuffix(P, "/") {
-		uv := mapAll(vals, upperASCII)
-		E := p.fill(mapAll(uv, encAll), func(s string) string { return encLetters(upperASCII(s)) }) + "/"
-		var cl claim
+		return p.mustNotOrUnspec(v.path, c)
+	case vCombo: // all three at once: judged only where all three equivalences are promised
 		if !c.CS && !c.Strict && c.Unesc {
-			cl = claim{kind: cMust, vals: uv}
+			cl := claim{kind: cMust, vals: f.uv}
 			if p.lastIsGreedy() {
-				cl.altOK, cl.altLast = true, uv[len(uv)-1]+"/"
+				cl.altOK, cl.altLast = true, f.uv[len(f.uv)-1]+"/"
 			}
+			return cl
 		}
-		out = append(out, variant{"upper+enc+slash", E, cl})
 	}
-	return out
+	return claim{}
 }
 
 // ---------------------------------------------------------------------------
@@ -624,36 +656,88 @@ func fiberCfg(c rcfg) fiber.Config {
 	return fiber.Config{CaseSensitive: c.CS, StrictRouting: c.Strict, UnescapePath: c.Unesc}
 }
 
+const (
+	oUnspec = iota
+	oMustOK
+	oMustNoMatch
+	oMustWrong
+	oMustNotOK
+	oMustNotMatched
+	nOutcomes
+)
+
+var outcomeText = [nOutcomes]string{"unspecified", "must: matched, values returned", "must: NOT MATCHED", "must: matched, WRONG VALUES", "must-not: not matched", "must-not: MATCHED"}
+
 func main() {
 	r := core.Start("C03")
-	maxTok := 4
+	if f := os.Getenv("C03_PROF"); f != "" {
+		fh, _ := os.Create(f)
+		_ = pprof.StartCPUProfile(fh)
+		defer pprof.StopCPUProfile()
+	}
+	// quick: all patterns of <=4 tokens over the full literal alphabet plus the 5-token patterns over
+	// the empty literal only (delimiters and parameters); thorough: all patterns of <=5 tokens, one more value.
+	maxTok, extraTok := 4, 5
 	values := []string{"", "x", "xy", "X", "x y", "x-y", "x.y", "x/y"}
-	neighbourTok := 4 // neighbours are generated for patterns up to this many tokens
 	if !r.Quick() {
-		maxTok = 5
+		maxTok, extraTok = 5, 0
 		values = append(values, "a")
-		neighbourTok = 5
 	}
 	if s := os.Getenv("C03_MAXTOK"); s != "" {
 		fmt.Sscan(s, &maxTok)
+		extraTok = 0
 	}
-	pats := enumPatterns(maxTok)
+	pats := enumPatterns(maxTok, lits)
+	if extraTok > maxTok {
+		for _, p := range enumPatterns(extraTok, []string{""}) {
+			if len(p.toks) > maxTok {
+				pats = append(pats, p)
+			}
+		}
+	}
+	sort.SliceStable(pats, func(i, j int) bool { return len(pats[i].toks) < len(pats[j].toks) })
+	// internal wall-clock cap (never an oracle): the tail of the largest patterns is dropped and the run is reported as not exhaustive
+	if r.Deadline.IsZero() {
+		r.Deadline = r.Start.Add(map[bool]time.Duration{true: 100 * time.Second, false: 14 * time.Minute}[r.Quick()])
+	}
 	var cfgs []rcfg
 	for i := 0; i < 8; i++ {
 		cfgs = append(cfgs, rcfg{i&1 != 0, i&2 != 0, i&4 != 0})
 	}
+	var aKeys [nVariants][nOutcomes]string
+	for v := 0; v < nVariants; v++ {
+		for o := 0; o < nOutcomes; o++ {
+			aKeys[v][o] = "params " + variantNames[v] + " " + outcomeText[o]
+		}
+	}
+	bKeys := [2][2]string{{"rpm app=false RoutePatternMatch=false", "rpm app=false RoutePatternMatch=true"}, {"rpm app=true RoutePatternMatch=false", "rpm app=true RoutePatternMatch=true"}}
+	b2i := func(b bool) int {
+		if b {
+			return 1
+		}
+		return 0
+	}
 
 	r.Parallel(len(pats), func(pi int, l *core.Local) {
 		p := pats[pi]
-		l.Add("patterns", 1)
 		np := len(p.keys)
+		if r.Expired() {
+			r.Cap("wall-clock cap reached: the tail of the pattern list (ordered by token count) was skipped")
+			l.Add("patterns_skipped_by_cap", 1)
+			return
+		}
 		// all assignments over the alphabet
-		var assigns [][]string
+		var fills []*filling
+		pathSet := map[string]struct{}{}
 		cur := make([]string, np)
 		var rec func(i int)
 		rec = func(i int) {
 			if i == np {
-				assigns = append(assigns, append([]string(nil), cur...))
+				a := append([]string(nil), cur...)
+				pathSet[p.fill(a, nil)] = struct{}{} // oracle (b) also sees type-invalid fillings
+				if p.typeValid(a) {
+					fills = append(fills, p.newFilling(a))
+				}
 				return
 			}
 			for _, v := range values {
@@ -662,59 +746,64 @@ func main() {
 			}
 		}
 		rec(0)
-
-		// the path set of oracle (b)
-		pathSet := map[string]struct{}{}
-		for _, a := range assigns {
-			P := p.fill(a, nil)
-			pathSet[P] = struct{}{}
-			if p.typeValid(a) && len(p.toks) <= neighbourTok {
-				addNeighbours(pathSet, P)
+		for _, f := range fills {
+			addNeighbours(pathSet, f.P)
+			for _, v := range f.vars {
+				pathSet[v.path] = struct{}{}
 			}
 		}
+		paths := make([]string, 0, len(pathSet))
+		for s := range pathSet {
+			if wireOK(s) {
+				paths = append(paths, s)
+			}
+		}
+		sort.Strings(paths)
 
-		var vbuf []variant
+		var nEval, nNontrivial, nUnspec, nAdm, nOutside, nNotWire, nRpm int64
+		var aOut [nVariants][nOutcomes]int64
+		var bOut [2][2]int64
 		for _, c := range cfgs {
 			rn := newRunner(p, c)
 			fc := fiberCfg(c)
-			for _, a := range assigns {
-				if !p.typeValid(a) {
+			fold := b2i(!c.CS)
+			for _, f := range fills {
+				if !f.adm[fold] {
+					nOutside++
 					continue
 				}
-				if !p.admissible(a, !c.CS) {
-					l.Add("fillings_outside_side_conditions", 1)
-					continue
-				}
-				l.Add("fillings_admissible", 1)
-				vbuf = p.variants(a, c, vbuf)
-				for _, v := range vbuf {
-					pathSet[v.path] = struct{}{}
+				nAdm++
+				for vi := range f.vars {
+					v := &f.vars[vi]
 					if !wireOK(v.path) {
-						l.Add("skipped_not_wire_expressible", 1)
+						nNotWire++
 						continue
 					}
-					l.Add("evaluations", 1)
+					nEval++
+					v.cl = p.claimFor(f, v, c)
 					if v.cl.kind == cUnspec {
-						l.Add("unspecified_skipped", 1)
-						l.Outcome("a " + v.name + " unspecified")
+						nUnspec++
+						aOut[v.id][oUnspec]++
 						continue
 					}
 					hit := rn.call(v.path)
 					if np > 0 {
-						l.Add("nontrivial", 1)
+						nNontrivial++
 					}
-					cs := map[string]any{"pattern": p.text, "values": a, "variant": v.name, "path": v.path, "config": c.String()}
-					if np == 2 && pi%211 == 0 && v.name != "as-is" && c.Unesc && !c.CS {
-						l.Sample(map[string]any{"case": cs, "claim": v.cl.kind, "handler_ran": hit, "params": append([]string(nil), rn.got...)})
+					mkCase := func() map[string]any {
+						return map[string]any{"pattern": p.text, "values": f.vals, "variant": v.name, "path": v.path, "config": c.String()}
+					}
+					if np == 2 && pi%211 == 0 && v.id != vAsIs && c.Unesc && !c.CS {
+						l.Sample(map[string]any{"case": mkCase(), "claim": []string{"unspecified", "must", "must-not"}[v.cl.kind], "handler_ran": hit, "params": append([]string(nil), rn.got...)})
 					}
 					switch v.cl.kind {
 					case cMust:
 						if !hit {
-							l.Outcome("a " + v.name + " must: NOT MATCHED")
-							l.Violate(sigA(p, v, c, "no-match", rn.got), "a path filled according to the statement does not reach the lone route", cs, "404", "handler runs")
+							aOut[v.id][oMustNoMatch]++
+							l.Violate(sigA(p, *v, c, "no-match", rn.got), "a path filled according to the statement does not reach the lone route", mkCase(), "404", "handler runs")
 							continue
 						}
-						ok := true
+						ok := rn.rt == p.text
 						for i := range v.cl.vals {
 							if rn.got[i] == v.cl.vals[i] {
 								continue
@@ -724,51 +813,62 @@ func main() {
 							}
 							ok = false
 						}
-						if rn.rt != p.text {
-							ok = false
-						}
 						if !ok {
-							l.Outcome("a " + v.name + " must: matched, WRONG VALUES")
-							l.Violate(sigA(p, v, c, "wrong-values", rn.got), "Params does not return the values the path was filled with", cs,
+							aOut[v.id][oMustWrong]++
+							l.Violate(sigA(p, *v, c, "wrong-values", rn.got), "Params does not return the values the path was filled with", mkCase(),
 								map[string]any{"params": append([]string(nil), rn.got...), "route": rn.rt}, v.cl.vals)
 							continue
 						}
-						l.Outcome("a " + v.name + " must: matched, values returned")
+						aOut[v.id][oMustOK]++
 					case cMustNot:
 						if hit {
-							l.Outcome("a " + v.name + " must-not: MATCHED")
-							l.Violate(sigA(p, v, c, "matched-although-config-says-different", rn.got), "the configuration makes this spelling a different path, no reading of the pattern describes it, yet the route answered", cs,
+							aOut[v.id][oMustNotMatched]++
+							l.Violate(sigA(p, *v, c, "matched-although-config-says-different", rn.got), "the configuration makes this spelling a different path, no reading of the pattern describes it, yet the route answered", mkCase(),
 								map[string]any{"params": append([]string(nil), rn.got...)}, "404")
 							continue
 						}
-						l.Outcome("a " + v.name + " must-not: not matched")
+						aOut[v.id][oMustNotOK]++
 					}
 				}
 			}
 			// oracle (b)
-			paths := make([]string, 0, len(pathSet))
-			for s := range pathSet {
-				paths = append(paths, s)
-			}
-			sort.Strings(paths)
 			for _, path := range paths {
-				if !wireOK(path) {
-					continue
-				}
 				hit := rn.call(path)
 				rpm := fiber.RoutePatternMatch(path, p.text, fc)
-				l.Add("evaluations", 1)
-				l.Add("rpm_comparisons", 1)
+				nEval++
+				nRpm++
 				if np > 0 {
-					l.Add("nontrivial", 1)
+					nNontrivial++
 				}
-				l.Outcome(fmt.Sprintf("b app=%v rpm=%v", hit, rpm))
+				bOut[b2i(hit)][b2i(rpm)]++
 				if hit == rpm {
 					continue
 				}
-				cs := map[string]any{"pattern": p.text, "path": path, "config": c.String()}
-				l.Violate(sigB(p, path, c, hit, rpm, fc), "RoutePatternMatch disagrees with dispatching the path to an app holding only that route", cs,
+				l.Violate(sigB(p, path, c, hit, rpm, fc), "RoutePatternMatch disagrees with dispatching the path to an app holding only that route",
+					map[string]any{"pattern": p.text, "path": path, "config": c.String()},
 					map[string]any{"RoutePatternMatch": rpm, "handler_ran": hit}, "equal")
+			}
+		}
+		l.Add("patterns", 1)
+		l.Add("evaluations", nEval)
+		l.Add("nontrivial", nNontrivial)
+		l.Add("unspecified_skipped", nUnspec)
+		l.Add("fillings_admissible", nAdm)
+		l.Add("fillings_outside_side_conditions", nOutside)
+		l.Add("skipped_not_wire_expressible", nNotWire)
+		l.Add("rpm_comparisons", nRpm)
+		for v := 0; v < nVariants; v++ {
+			for o := 0; o < nOutcomes; o++ {
+				if aOut[v][o] > 0 {
+					l.P.Outcomes[aKeys[v][o]] += aOut[v][o]
+				}
+			}
+		}
+		for a := 0; a < 2; a++ {
+			for b := 0; b < 2; b++ {
+				if bOut[a][b] > 0 {
+					l.P.Outcomes[bKeys[a][b]] += bOut[a][b]
+				}
 			}
 		}
 	})
@@ -779,9 +879,9 @@ func main() {
 		Coverage: map[string]any{
 			"evaluations":         r.P.Counters["evaluations"],
 			"distinct_nontrivial": r.P.Counters["nontrivial"],
-			"rule": fmt.Sprintf("every delimited pattern of <=%d tokens (first token '/'+lit, then any of 12 literal tokens {/,-,.}x%q or a parameter {:p,:p?,*,+} never directly after a parameter) = %d patterns; x every assignment of %q to its parameters; (a) assignments meeting the side conditions x spelling variants {as-is, upper, upper-literals, slash-added, slash-removed, enc-values, enc-all, upper+enc+slash} x 8 configs judged must/must-not/unspecified; (b) every filled path (side conditions NOT required, type-invalid values included), every variant path and every one-symbol deletion/insertion (symbols %q) of the type-valid filled paths x 8 configs: RoutePatternMatch vs lone-route app. A case is non-trivial when the pattern has at least one parameter and the oracle gave a verdict (not unspecified)",
-				maxTok, lits, len(pats), values, neighbourSyms),
-			"bounds": map[string]any{"max_tokens": maxTok, "value_alphabet": values, "literal_alphabet": lits, "neighbour_symbols": neighbourSyms, "neighbours_for_patterns_up_to_tokens": neighbourTok, "patterns": len(pats), "configs": 8},
+			"rule": fmt.Sprintf("every delimited pattern of <=%d tokens (first token '/'+lit, then any of 12 literal tokens {/,-,.}x%q or a parameter {:p,:p?,*,+} never directly after a parameter)%s = %d patterns; x every assignment of %q to its parameters; (a) assignments meeting the side conditions x spelling variants %q x 8 configs judged must/must-not/unspecified; (b) every filled path (side conditions NOT required, type-invalid values included), every variant path and every one-symbol deletion/insertion (symbols %q) of the type-valid filled paths x 8 configs: RoutePatternMatch vs lone-route app. A case is non-trivial when the pattern has at least one parameter and the oracle gave a verdict (not unspecified)",
+				maxTok, lits, map[bool]string{true: fmt.Sprintf(" plus every %d-token pattern whose literals are bare delimiters", extraTok), false: ""}[extraTok > maxTok], len(pats), values, variantNames, neighbourSyms),
+			"bounds": map[string]any{"max_tokens": maxTok, "extra_tokens_reduced_literals": extraTok, "value_alphabet": values, "literal_alphabet": lits, "neighbour_symbols": neighbourSyms, "patterns": len(pats), "configs": 8},
 		},
 		Assumptions: []string{
 			"handler-level drive: app.Handler() through fx.CallInto with a Host header; fasthttp request-line parsing is not re-checked (paths with a raw space are not sent)",
@@ -791,5 +891,6 @@ func main() {
 		},
 		MinOutcomes: 4,
 	}
+	pprof.StopCPUProfile()
 	r.Finish(ev)
 }
